@@ -4,7 +4,7 @@ import os
 from pyvc.api import *
 from pyvc.spec import callee_of
 
-SPEC_IMPORTS = ['contracts.common', 'contracts.c01', 'contracts.load']
+SPEC_IMPORTS = ['contracts.common', 'contracts.c01', 'contracts.load', 'contracts.c17']
 SPEC_FUNCTIONS = ['moves_with', 'rebase', 'to_path_spec1', 'to_path_spec2', 'with_final_newline', 'valid_renames',
                   'norm_lines', 'diff_header']
 
@@ -379,4 +379,7 @@ def dynamic_contracts(repo):
     are really outside the text and hands the completed until-position to the refactoring (contracts shared with C01)"""
     from contracts import c01, load
     # ... and the text a refactoring rewrites is the text given or the file as it is now (contracts/load.py)
-    return [c for c in c01.CONTRACTS if c.id.endswith('.until')] + [load.parse_and_get_code]
+    # ... including the other files of a project-wide rename, which are found by the text search and parsed from the
+    # bytes of the file decoded per PEP 263 - not from a normalised or otherwise rewritten text (shared with C17)
+    from contracts import c17
+    return [c for c in c01.CONTRACTS if c.id.endswith('.until')] + [load.parse_and_get_code, c17._check_fs]
